@@ -14,7 +14,7 @@ import vlib
 COMP_SRCS = ["harness/comp/comp.cpp"]
 PLAN = {"C17": (["vbyte", "logseq", "daclayout", "layoutproofs"], ["vbyte", "logseq", "dacvls"]),
         "C18": (["codes", "chunk"], ["codes", "tabledec"]),
-        "C19": (["succinct", "rg"], ["bitseq", "wt"]),
+        "C19": (["succinct", "rg", "rrr"], ["bitseq", "wt"]),
         "C20": (["repair"], ["repair"])}
 _bad_re = re.compile(r'^<<"BAD", "(.*)">>$')
 
@@ -23,6 +23,14 @@ def mc(which):
     if which == "layoutproofs":
         n = vlib.tlaps("LayoutProofs")
         return vlib.TLCResult(rc=0, out="", wall=0.0, cmd="tlapm LayoutProofs.tla", distinct=0, generated=0, tlaps_obligations_proved=n)
+    if which == "rrr":
+        cfg = os.path.join(vlib.CACHE, "cfg", "rrrspec.cfg")
+        os.makedirs(os.path.dirname(cfg), exist_ok=True)
+        open(cfg, "w").write("SPECIFICATION Spec\nCONSTANTS BS = 3\nMaxN = 10\nRates = {1, 2, 3}\nINVARIANT Inv\nCHECK_DEADLOCK FALSE\n")
+        r = vlib.tlc("RRRSpec", cfg, workers=8, timeout=1800, java_opts=["-Xmx6g"])
+        if r.rc != 0:
+            raise RuntimeError("RRRSpec.tla failed: rc=%s violated=%s" % (r.rc, r.violated))
+        return r
     if which == "daclayout":
         body = "SPECIFICATION Spec\nCONSTANTS MaxSeqs = 3\nMaxLen = 3\nSyms = {1, 2}\nLenSlack = %s\nBoundFirst = %s\nINVARIANT AccessOK\nCHECK_DEADLOCK FALSE\n"
         os.makedirs(os.path.join(vlib.CACHE, "cfg"), exist_ok=True)
